@@ -6,6 +6,7 @@ Writes mutation_audit.md when run without filters.
 """
 import argparse
 import importlib.util
+import json
 import os
 import shutil
 import subprocess
@@ -14,6 +15,7 @@ import time
 from concurrent.futures import ThreadPoolExecutor
 
 HERE = os.path.dirname(os.path.dirname(os.path.abspath(__file__)))
+COLLECT = False
 
 
 def load_mutants():
@@ -35,11 +37,29 @@ def run_one(m, tier, cpus):
         open(p, "w").write(s)
         res = {}
         for prop in m["props"]:
-            env = dict(os.environ, VERIF_REPO=d, VERIF_CPUS=str(cpus))
+            env = dict(os.environ, VERIF_REPO=d, VERIF_CPUS=str(cpus), VERIF_REPLAY_DIR=os.path.join(d, "replays"))
             t0 = time.time()
             r = subprocess.run([os.path.join(HERE, "check"), prop, "--tier", tier, "--no-evidence"],
                                env=env, capture_output=True, text=True, cwd=HERE)
             lines = [l for l in r.stdout.splitlines() if l.startswith("VIOLATION") or l.startswith("  [")]
+            if COLLECT and r.returncode == 1:
+                # keep the shrunk failing cases as regression corpus (replayed first by every run)
+                n = 0
+                for l in r.stdout.splitlines():
+                    if l.startswith("VIOLATION") and "replay=" in l and n < 2:
+                        rp = os.path.join(HERE, l.split("replay=")[1].strip())
+                        if rp.endswith(".json") and os.path.exists(rp):
+                            dst = os.path.join(HERE, "corpus", prop, f"{m['id']}-{n}.json")
+                            os.makedirs(os.path.dirname(dst), exist_ok=True)
+                            try:
+                                doc = json.load(open(rp))
+                                if len(json.dumps(doc)) < 20000:
+                                    json.dump({"property": prop, "subcheck": doc["subcheck"], "case": doc["case"],
+                                               "origin": f"shrunk failure of mutant {m['id']}: {doc.get('sig', '')}"},
+                                              open(dst, "w"), indent=1, sort_keys=True)
+                                    n += 1
+                            except Exception:  # noqa: BLE001
+                                pass
             res[prop] = {"rc": r.returncode, "t": round(time.time() - t0, 1),
                          "first": (lines[1].strip()[:160] if len(lines) > 1 else (r.stderr.strip().splitlines() or [""])[-1][:160])}
         ok = all(v["rc"] == 1 for v in res.values())
@@ -52,8 +72,11 @@ def main():
     ap = argparse.ArgumentParser()
     ap.add_argument("--tier", default="quick")
     ap.add_argument("--jobs", type=int, default=2)
+    ap.add_argument("--collect-corpus", action="store_true", help="copy shrunk failing cases to corpus/<prop>/")
     ap.add_argument("filters", nargs="*")
     a = ap.parse_args()
+    global COLLECT
+    COLLECT = a.collect_corpus
     muts = load_mutants()
     if a.filters:
         muts = [m for m in muts if m["id"] in a.filters or any(p in a.filters for p in m["props"])]
